@@ -27,6 +27,11 @@
          C01_*_spend_dispatch              the same through the dispatcher verify_spend on the
                                            scriptPubKey of the C16 model (to_p2wsh, to_p2sh, ...)
          C01_wpkh_spends, C01_shwpkh_spends (+ dispatch)   key-only types (not miniscripts)
+         C01_pkh_spends (+ dispatch)       pkh(K): scriptSig = push(sig) push(key) against the P2PKH
+                                           script, through verify_bare (Spend.v needs no P2PKH branch)
+         C01_tr_keypath_spends (+ dispatch) taproot key path, witness [sig] against the output key;
+         C01_tr_keypath_annex_rejected     [sig; annex] is rejected by Spend.v (annex unsupported)
+       With these, every output type a Descriptor can have is covered.
        Both well-formedness predicates are carried: [wf] (TheoremA: semantic side conditions -
        hash images differ from the image of 32 zero bytes, multi only outside / multi_a only inside
        tapscript, thresh arity < 1000) and [ms_wf] (C04: BYTE LENGTHS of keys and hashes, which is
@@ -43,7 +48,7 @@
    The script-number facts used (minimal encoding round-trips) are proved in ScriptNumProofs.v. *)
 From Verif Require Import Exec Ser Spend Ast Types TypeCheck SatSpec Sat ExecLemmas TheoremA SatProofs.
 From Verif Require Import CodecSpec SerProofs DescSpendModel DescSpendPush DescSpendProofs DescSpendBare.
-From Verif Require DescSpendLimits DescSpendExamples CodecExt ExtModel ExtProofs ExtSize.
+From Verif Require DescSpendLimits DescSpendKeyOnly DescSpendExamples CodecExt ExtModel ExtProofs ExtSize.
 
 Theorem C01_table_sound_partial :
   forall (e : env) (ke : keyenv) (A : assets), assets_ok e ke A -> (forall kbs, e_sigok e kbs [] = false) ->
@@ -315,6 +320,53 @@ Theorem C01_shwpkh_spend_dispatch :
 Proof. exact shwpkh_dispatch. Qed.
 Print Assumptions C01_shwpkh_spend_dispatch.
 
+(* pkh(K): Pkh::get_satisfaction builds scriptSig = push_slice(sig) push_key(K) (plain data pushes,
+   not witness_to_scriptsig), scriptPubKey = new_p2pkh(hash160 K).  Spend.v has no P2PKH branch and
+   needs none: DUP HASH160 <h> EQUALVERIFY CHECKSIG is an ordinary script, validated by verify_bare,
+   and the dispatcher falls through its four templates (first byte OP_DUP).  Any key length >= 2,
+   in particular 33 (compressed) and 65 (uncompressed); which encodings are acceptable is e_keyok's
+   business.  [2 <= blen sg] makes the signature push minimal (real ECDSA signatures: 9..73 bytes). *)
+Theorem C01_pkh_spends :
+  forall (e : env) (k sg : bytes), blen (e_hash160 e k) = 20 ->
+    e_keyok (with_sv e SvBase) k = true -> e_sigok e k sg = true ->
+    2 <= blen sg -> 2 <= blen k -> blen (ssig_pkh sg k) <= 1650 ->
+    verify_bare e (spk_pkh e k) (ssig_pkh sg k) [] = true.
+Proof. exact DescSpendKeyOnly.pkh_spends. Qed.
+Print Assumptions C01_pkh_spends.
+
+Theorem C01_pkh_spend_dispatch :
+  forall (e : env) (commit_ok : bytes -> bytes -> bool) (k sg : bytes), blen (e_hash160 e k) = 20 ->
+    e_keyok (with_sv e SvBase) k = true -> e_sigok e k sg = true ->
+    2 <= blen sg -> 2 <= blen k -> blen (ssig_pkh sg k) <= 1650 ->
+    verify_spend e commit_ok (spk_pkh e k) (ssig_pkh sg k) [] = true.
+Proof. exact DescSpendKeyOnly.pkh_dispatch. Qed.
+Print Assumptions C01_pkh_spend_dispatch.
+
+(* taproot KEY PATH: witness = [signature], empty scriptSig; the signature is checked against the
+   OUTPUT key.  Spend.v puts no length condition of its own on the signature: the 64-byte (default
+   sighash) / 65-byte forms are part of what [e_sigok] accepts for tapscript-era keys. *)
+Theorem C01_tr_keypath_spends :
+  forall (e : env) (commit_ok : bytes -> bytes -> bool) (outkey sg : bytes),
+    e_sigok e outkey sg = true ->
+    verify_tr e outkey commit_ok [] (wit_tr_keypath sg) = true.
+Proof. exact DescSpendKeyOnly.tr_keypath_spends. Qed.
+Print Assumptions C01_tr_keypath_spends.
+
+Theorem C01_tr_keypath_spend_dispatch :
+  forall (e : env) (commit_ok : bytes -> bytes -> bool) (outkey sg : bytes),
+    blen outkey = 32 -> e_sigok e outkey sg = true ->
+    verify_spend e commit_ok (spk_tr outkey) [] (wit_tr_keypath sg) = true.
+Proof. exact DescSpendKeyOnly.tr_keypath_dispatch. Qed.
+Print Assumptions C01_tr_keypath_spend_dispatch.
+
+(* the annex is not supported by Spend.v: [sig; annex] is rejected whatever the signature
+   (the library never produces an annex) *)
+Theorem C01_tr_keypath_annex_rejected :
+  forall (e : env) (commit_ok : bytes -> bytes -> bool) (outkey sg a : bytes),
+    verify_tr e outkey commit_ok [] [sg; 80 :: a] = false.
+Proof. exact DescSpendKeyOnly.tr_keypath_annex_rejected. Qed.
+Print Assumptions C01_tr_keypath_annex_rejected.
+
 (* ---- non-vacuity, one per output type: a concrete world (Proofs/DescSpendExamples.v; script
    or_i(pk(K0),pk(K1)), satisfaction [sig; 01]) in which every hypothesis of the theorem holds, and
    in which verify_* and verify_spend are re-established by evaluation (vm_compute), independently
@@ -383,6 +435,26 @@ Example C01_wpkh_nonvacuous :
   verify_spend ex_env ex_commit (spk_wpkh ex_env ex_key) [] [ex_sig; ex_key] = true /\
   verify_spend ex_env ex_commit (spk_shwpkh ex_env ex_key) (ssig_shwpkh ex_env ex_key) [ex_sig; ex_key] = true.
 Proof. exact ex_wpkh. Qed.
+
+Example C01_pkh_nonvacuous :
+  (blen ex_key = 33 /\ blen ex_key_unc = 65) /\
+  blen (e_hash160 ex_env ex_key) = 20 /\ blen (e_hash160 ex_env ex_key_unc) = 20 /\
+  e_keyok (with_sv ex_env SvBase) ex_key = true /\ e_keyok (with_sv ex_env SvBase) ex_key_unc = true /\
+  e_sigok ex_env ex_key ex_sig = true /\ e_sigok ex_env ex_key_unc ex_sig = true /\
+  2 <= blen ex_sig /\ blen (ssig_pkh ex_sig ex_key) <= 1650 /\ blen (ssig_pkh ex_sig ex_key_unc) <= 1650 /\
+  verify_bare ex_env (spk_pkh ex_env ex_key) (ssig_pkh ex_sig ex_key) [] = true /\
+  verify_spend ex_env ex_commit (spk_pkh ex_env ex_key) (ssig_pkh ex_sig ex_key) [] = true /\
+  verify_spend ex_env ex_commit (spk_pkh ex_env ex_key_unc) (ssig_pkh ex_sig ex_key_unc) [] = true.
+Proof. exact ex_pkh. Qed.
+
+Example C01_tr_keypath_nonvacuous :
+  blen ex_outkey = 32 /\ blen ex_sig64 = 64 /\ blen ex_sig65 = 65 /\
+  e_sigok ex_env_tr ex_outkey ex_sig64 = true /\ e_sigok ex_env_tr ex_outkey ex_sig65 = true /\
+  verify_tr ex_env_tr ex_outkey ex_commit [] (wit_tr_keypath ex_sig64) = true /\
+  verify_spend ex_env_tr ex_commit (spk_tr ex_outkey) [] (wit_tr_keypath ex_sig64) = true /\
+  verify_spend ex_env_tr ex_commit (spk_tr ex_outkey) [] (wit_tr_keypath ex_sig65) = true /\
+  verify_spend ex_env_tr ex_commit (spk_tr ex_outkey) [] [ex_sig64; 80 :: [1; 2]] = false.
+Proof. exact ex_tr_keypath. Qed.
 
 (* non-vacuity: a concrete well-typed script with a non-empty table *)
 Example C01_nonvacuous :
